@@ -132,7 +132,40 @@ def tabulate() -> dict:
                         if nm in DTYPES:
                             ok.append(DTYPES.index(nm))
         allowed[name] = sorted(ok)
-    return {"rt2": rt2, "rt1": rt1, "np_binary": np_binary, "np_neg": np_neg, "floating": floating,
+    # Python floats are judged by TYPE, not by value: np.result_type must give the same answers for whole-number,
+    # signed-zero, huge, tiny and non-finite floats as for the 2.5 the tables above are made with
+    float_samples = []
+    for v in [2.5, 2.0, -3.0, 0.0, -0.0, 1.0, 1e300, 5e-324, float("inf"), float("-inf"), float("nan"), float(2 ** 53)]:
+        try:
+            one = code(np.result_type(v))
+        except Exception:  # noqa: BLE001
+            one = None
+        row = []
+        for d in range(N):
+            try:
+                row.append(code(np.result_type(np.dtype(DTYPES[d]), v)))
+            except Exception:  # noqa: BLE001
+                row.append(None)
+        float_samples.append({"repr": repr(v), "whole": bool(v == v and abs(v) != float("inf") and float(v).is_integer()),
+                              "constlike": isinstance(v, (np.generic, int, float)), "rt1": one, "row": row})
+    oo_defaults = [None, None]
+    try:
+        import ast
+
+        from .common import parse
+
+        for fn in parse("src/spox/_future.py").body:
+            if isinstance(fn, ast.FunctionDef) and fn.name == "operator_overloading":
+                names = [a.arg for a in fn.args.args]
+                dfl = dict(zip(names[len(names) - len(fn.args.defaults):], fn.args.defaults))
+                for a, d in zip(fn.args.kwonlyargs, fn.args.kw_defaults):
+                    dfl[a.arg] = d
+                oo_defaults = [dfl[k].value if k in dfl and isinstance(dfl[k], ast.Constant) else None
+                               for k in ("type_promotion", "constant_promotion")]
+    except Exception:  # noqa: BLE001
+        pass
+    return {"float_samples": float_samples, "oo_defaults": oo_defaults,
+            "rt2": rt2, "rt1": rt1, "np_binary": np_binary, "np_neg": np_neg, "floating": floating,
             "integer": integer, "signed": signed, "bits": bits, "allowed": allowed,
             "dtypes": DTYPES, "numpy": np.__version__}
 
@@ -162,6 +195,14 @@ def render(t: dict) -> str:
     L.append(f"/-- input type constraints of the ONNX operators the dispatcher emits (opset {OPSET}). -/")
     L.append("def opAllowed : List (String × List Nat) := " + lean_list(
         [f"({lean_str(k)}, {lean_list([str(x) for x in v])})" for k, v in t["allowed"].items()]) + "\n")
+    L.append("/-- Python float samples (repr, whole-number?, isinstance(v, (np.generic, int, float)), `np.result_type(v)`,\n"
+             "    `np.result_type(dtype d, v)` for the 12 dtypes). -/")
+    L.append("def floatSamples : List (String × Bool × Bool × Option Nat × List (Option Nat)) := [\n  " + ",\n  ".join(
+        f"({lean_str(f['repr'])}, {lean_bool(f['whole'])}, {lean_bool(f['constlike'])}, {lean_opt(f['rt1'])}, {row(f['row'])})"
+        for f in t.get("float_samples", [])) + "]\n")
+    L.append("/-- defaults of `operator_overloading(op, type_promotion=…, constant_promotion=…)` (read from the source). -/")
+    L.append(f"def ooDefaults : Bool × Bool := ({lean_bool(t.get('oo_defaults', [None, None])[0] is True)}, {lean_bool(t.get('oo_defaults', [None, None])[1] is True)})")
+    L.append(f"def ooDefaultsKnown : Bool := {lean_bool(all(isinstance(x, bool) for x in t.get('oo_defaults', [None, None])))}\n")
     L.append("def info : NpInfo where\n"
              "  rt2 := fun a b => ((rt2.getD a []).getD b none)\n"
              "  rt1 := fun a => rt1.getD a none\n"
